@@ -80,17 +80,26 @@ def repo_head():
 # escapes to the caller is visible and the call is repeated without the
 # filter, one that is swallowed inside the library and changes the answer is
 # caught by the ordinary oracle.
-# 'debug-logging': the root logger (hence every logger of the library) is
-# enabled down to DEBUG, as after logging.basicConfig(level=logging.DEBUG) in
-# an application: code behind `logger.isEnabledFor(DEBUG)` runs.
+# 'application-settings': process-wide settings an application around the
+# library may have made.  Both shards: the root logger (hence every logger of
+# the library) enabled down to DEBUG, as after logging.basicConfig(level=
+# logging.DEBUG) -- code behind `logger.isEnabledFor(DEBUG)` runs.  The second
+# shard also: the decimal context at 3 digits (decimal.getcontext().prec = 3,
+# DefaultContext too), numpy print precision 3, and sys.stdout CLOSED (a
+# daemon, a GUI program): whatever the library prints must not decide what it
+# returns.
 VARIANTS = [('optimised', [{'PYTHONOPTIMIZE': '1'}, {'PYTHONOPTIMIZE': '2'}]),
             ('warnings-as-errors', [{'VMON_WARNINGS': 'error'}]),
-            ('debug-logging', [{'VMON_LOGGING': 'debug'}])]
+            ('application-settings', [
+                {'VMON_LOGGING': 'debug'},
+                {'VMON_LOGGING': 'debug', 'VMON_DECIMAL_PREC': '3',
+                 'VMON_NUMPY_PRINT': '3', 'VMON_STDOUT': 'closed'}])]
 # ('optimised' alternates -O and -OO: the second also strips docstrings.)
 # Every variant shard additionally runs under its own string-hash seed (the
 # ordinary shards all run under PYTHONHASHSEED=0 so that cases are
 # reproducible by key): nothing may depend on set / dict-of-str order.
 VARIANT_KEYS = ('PYTHONOPTIMIZE', 'VMON_WARNINGS', 'VMON_LOGGING',
+                'VMON_DECIMAL_PREC', 'VMON_NUMPY_PRINT', 'VMON_STDOUT',
                 'RDK_USE_LEGACY_STEREO_PERCEPTION')
 # A check may add variants of its own (CONFIG['extra_variants']) where a
 # third-party switch is in the property's way and the unchanged library
